@@ -585,6 +585,9 @@ class PageGen:
                 it.mod = zday + dt.timedelta(days=rng.randint(1, 60))
                 if rng.random() < o.p_mod_equals_create:
                     it.mod = zday
+                elif rng.random() < 0.1:
+                    # a stamp EARLIER than the ZID's own date is legal text too ('o 250215 250301#03 ...')
+                    it.mod = max(dt.date(2000, 1, 1), zday - dt.timedelta(days=rng.randint(1, 40)))
                 if it.mod.year > 2099:
                     it.mod = zday
         else:
